@@ -717,6 +717,9 @@ void File::uncompressedFile2ReadWriteQueue() {
     if (obj == nullptr) {
         /* in case of unknown objectType */
         m_uncompressedFile.seekg(ohb.objectSize, std::ios_base::cur);
+
+        /* drop old data (also here: a long run of unknown objects must not keep every log container) */
+        m_uncompressedFile.dropOldData();
         return;
     }
 
